@@ -105,7 +105,11 @@ def scenario(idx, kind, shape, pos, cat, ret="val"):
     o.append("struct B { const void* self_B; int oid = 0; B() : self_B(this) {} virtual ~B() {} };")
     if decl:
         o.append(decl)
-    o.append("register_classes(%s);" % ", ".join(["B"] + (["D"] if dname else []) + (["Mid"] if shape == "two" else [])))
+    # E: a class derived from the definition's class, with enough members of its own to put a virtual base somewhere else:
+    # the definition for D also serves objects of E, and must find ITS D sub-object
+    o.append("struct EPad { virtual ~EPad() {} long epad[5] = {1, 2, 3, 4, 5}; };")
+    o.append("struct E : EPad, %s { long ee[3] = {7, 8, 9}; };" % D)
+    o.append("register_classes(%s);" % ", ".join(["B"] + (["D"] if dname else []) + (["Mid"] if shape == "two" else []) + ["E"]))
     o.append("declare_method(%s, f, (%s));" % (rtype, ", ".join(mparams)))
     o.append("define_method(%s, f, (%s)) {" % (rtype, ", ".join(dparams)))
     o.append("    g_rep.ran = true;")
@@ -119,23 +123,24 @@ def scenario(idx, kind, shape, pos, cat, ret="val"):
     o.append("    g_rep.nv_ok = %s;" % nvcheck)
     o.append("    " + rstmt.replace("{i}", str(idx)))
     o.append("}")
-    o.append("void run() {")
-    o.append("    g_rep = Report();")
-    if shared:
-        o.append("    std::shared_ptr<%s> sd = std::make_shared<%s>(); sd->oid = 1234;" % (D, D))
-        o.append("    std::shared_ptr<B> sp = sd; g_owner = sd;")
-    else:
-        o.append("    %s obj; obj.oid = 1234; B& b = obj;" % D)
-    if kind in KIND_SETUP:
-        o.append("    " + KIND_SETUP[kind])
-    if setup:
-        o.append("    " + setup)
-    o.append("    Tracked::copies = 0; Tracked::moves = 0;")
-    o.append("    bool ok = false;")
-    o.append("    try { %s } catch (...) { }" % rcall.replace("{a}", ", ".join(args)).replace("{i}", str(idx)))
-    o.append('    print_report("%s", "%s", %d, "%s", "%s", ok);' % (kind, shape, pos, cat, ret))
-    o.append("    g_owner.reset();")
-    o.append("}")
+    for fn, dyn in (("run", D), ("run_e", "E")):
+        o.append("void %s() {" % fn)
+        o.append("    g_rep = Report();")
+        if shared:
+            o.append("    std::shared_ptr<%s> sd = std::make_shared<%s>(); sd->oid = 1234;" % (dyn, dyn))
+            o.append("    std::shared_ptr<B> sp = sd; g_owner = sd;")
+        else:
+            o.append("    %s obj; obj.oid = 1234; B& b = obj;" % dyn)
+        if kind in KIND_SETUP:
+            o.append("    " + KIND_SETUP[kind])
+        if setup:
+            o.append("    " + setup)
+        o.append("    Tracked::copies = 0; Tracked::moves = 0;")
+        o.append("    bool ok = false;")
+        o.append("    try { %s } catch (...) { }" % rcall.replace("{a}", ", ".join(args)).replace("{i}", str(idx)))
+        o.append('    print_report("%s", "%s", %d, "%s", "%s", ok);' % (kind, shape, pos, cat, ret))
+        o.append("    g_owner.reset();")
+        o.append("}")
     o.append("} // namespace")
     return "\n".join(o)
 
@@ -149,6 +154,7 @@ def program(name, scenarios):
     o.append("    yorel::yomm2::update();")
     for idx, _ in scenarios:
         o.append("    a%d::run();" % idx)
+        o.append("    a%d::run_e();" % idx)    # then again with an object of a class derived from the definition's class
     o.append('    std::puts("{\\"e\\":\\"ok\\"}");')
     o.append("    return 0;")
     o.append("}")
